@@ -174,5 +174,32 @@ def generate(src, die, coq_str):
     if not m or m.group(1) != m.group(2):
         die("optimize: the bucket is not sorted by a key afterwards")
     out.append("Definition optimize_sorts_by : string := %s." % coq_str(m.group(1)))
+    # the per-bucket steps of optimize: rules held by this bucket alone (Arc::try_unwrap succeeds) go
+    # to the optimizer when there are more than `threshold` of them, the shared ones are appended
+    # unchanged, the bucket is sorted and stored under the SAME key, the map is replaced at the end
+    nb = norm(body)
+    mo = re.search(r"for\s*\(key,\s*filters\)\s*in\s*self\.filter_map\.drain\(\)\s*\{", body)
+    if not mo:
+        die("optimize: loop over the drained buckets not found")
+    loop, _ = _bs.block_at(body, mo.end() - 1, die)
+    nl = norm(loop)
+    mm = re.search(r"forfinfilters\{matchArc::try_unwrap\(f\)\{Ok\(f\)=>(\w+)\.push\(f\),Err\(af\)=>(\w+)\.push\(af\),?\}\}", nl)
+    if not mm:
+        die("optimize: split into owned / shared rules not recognised")
+    owned, shared = mm.group(1), mm.group(2)
+    mi = re.search(r"letmutoptimized:Vec<_>=if%s\.len\(\)>(\d+)\{optimizer::optimize\(%s\)\.into_iter\(\)\.map\(Arc::new\)\.collect\(\)\}else\{%s\.into_iter\(\)\.map\(Arc::new\)\.collect\(\)\};" % (owned, owned, owned), nl)
+    if not mi:
+        die("optimize: owned rules are not handed to optimizer::optimize above the threshold and kept otherwise")
+    rest = nl[mi.end():]
+    want = ["optimized.append(&mut%s);" % shared, "optimized.sort_by(|a,b|a.id.cmp(&b.id));", "optimized_map.insert(key,optimized);"]
+    pos = 0
+    for w in want:
+        k = rest.find(w, pos)
+        if k < 0:
+            die("optimize: %r not found (in this order) after the optimizer call" % w)
+        pos = k + len(w)
+    if not nb.rstrip(";").endswith("self.filter_map=optimized_map"):
+        die("optimize: the map is not replaced by the optimized one at the end")
+    out.append("Definition optimize_steps : list string := [\"split owned/shared\"; \"owned>threshold: optimizer::optimize, else unchanged\"; \"append shared\"; \"sort\"; \"store under the same key\"; \"replace the map\"].")
     out.append("End ListGen.")
     return out
